@@ -536,3 +536,10 @@ def run(F, S, R, tier):
     R.guard("prov/block-resolve", block_resolve)
     # a cell restored by a reorg must be indistinguishable from the original (maturity/since read its creation info)
     R.guard("conv/cell-entry", lambda: cell_entry_rule(F, S, R))
+
+    # the per-output occupied-capacity test is made for every transaction, also for the two kinds exempt from the inputs >= outputs sum (cellbase,
+    # dao withdraw): an early `return Ok(())` for the exempt kinds (round-2 seed C04-seed4) switches it off for them
+    def occupied_always():
+        cap = F.one("ckb_verification", r"CapacityVerifier::verify$")
+        K.mustcall(R, "mustcall/capacity/occupied-always", cap, [r"outputs_with_data_iter$"], S, what="every success path of CapacityVerifier::verify walks the outputs for the occupied-capacity test")
+    R.guard("mustcall/capacity/occupied-always", occupied_always)
